@@ -162,7 +162,12 @@ def prepare_xfer(obs, x):
     w.s3.labels[(BUCKET, x.key)] = x.label
     if x.kind == 'upload':
         src = t.get('src', 'path')
-        if src == 'path':
+        if src == 'path' and t.get('same_source_as') is not None:
+            # the same path string as an earlier (already finished) upload of this manager; the file is rewritten with this
+            # transfer's content - another length - just before this upload is submitted (sequential histories)
+            x.src = obs.xfers[t['same_source_as']].src
+            x.rewrite_source = True
+        elif src == 'path':
             path = os.path.join(tmpdir, f'src-{x.idx}')
             real = path + '-target' if t.get('symlink') else path
             with open(real, 'wb') as f:
@@ -276,6 +281,14 @@ def run(spec, hang_ok=False):
     for h in spec.get('_hooks', ()):  # in-process only (not JSON): extra point hooks
         d.hooks.append(h)
 
+    if spec.get('prior_use'):
+        # the client has a history: another front-end / an earlier manager has already been used on it (boto3 builds a new manager
+        # on the same client for every call), which leaves event handlers registered on the client
+        try:
+            _prior_use(client, spec['prior_use'], obs.tmpdir, cfg)
+        except Exception as e:  # noqa
+            w.s3.harness_errors.append(f'prior use of the client failed: {e!r}')
+        log.add('prior_use.end', how=spec['prior_use'])
     if spec.get('executor') == 'nonthreaded':
         # everything runs inline in the submitting thread (what boto3's use_threads=False selects)
         from s3transfer.futures import NonThreadedExecutor
@@ -407,6 +420,21 @@ def run(spec, hang_ok=False):
     return obs
 
 
+def _prior_use(client, how, tmpdir, cfg):
+    path = os.path.join(tmpdir, 'prior-src')
+    with open(path, 'wb') as f:
+        f.write(b'prior-data')
+    if how == 'legacy':
+        import s3transfer
+
+        s3transfer.S3Transfer(client).upload_file(path, BUCKET, 'prior-legacy')
+    else:
+        # an earlier manager with the same configuration (limits, bandwidth), used and shut down
+        with TransferManager(client, cfg) as m:
+            m.upload(path, BUCKET, 'prior-mgr').result()
+    os.remove(path)
+
+
 def submit_one(mgr, x):
     t = x.spec
     extra = dict(t.get('extra_args') or {})
@@ -476,6 +504,10 @@ def _drive(obs, mgr, xfers, spec, mode, do_cancel):
                         th.join(0.05)
                 return
             for x in xfers:
+                if getattr(x, 'rewrite_source', False):
+                    with open(x.src, 'wb') as f:
+                        f.write(x.data)
+                    obs.osutil.labels[x.src] = x.label
                 log.add('submit.begin', label=x.label)
                 submit_one(mgr, x)
                 log.add('submit.end', label=x.label, error=repr(x.submit_exc) if x.submit_exc else None)
